@@ -54,6 +54,8 @@ type Engine struct {
 	tier        string
 	funcsDone   []string
 	pkgContract map[string]*FuncContract // package name -> "//@ package" section
+	keyAlias       map[string]string // current function key -> key its contract was written under (renamed functions)
+	bareAlias      map[string]string // current bare function name -> old bare name (call-site ghost statements)
 	recordedLocals map[string][]localDecl
 	renames        map[*ssa.Function]map[string][]string
 }
@@ -172,10 +174,22 @@ func newEngine(repo, specDir string) (*Engine, error) {
 			}
 		}
 	}
+	eng.funcRenames()
+	eng.buildHarnessShims()
 	return eng, nil
 }
 
+// fnKey: the key under which contracts, configurations and obligation names know a function. For a function
+// that was renamed in /repo (see funcRenames) it is the name it had when its contract was written.
 func (eng *Engine) fnKey(fn *ssa.Function) string {
+	k := eng.rawKey(fn)
+	if old, ok := eng.keyAlias[k]; ok {
+		return old
+	}
+	return k
+}
+
+func (eng *Engine) rawKey(fn *ssa.Function) string {
 	if fn.Pkg == nil {
 		if fn.Parent() != nil {
 			return eng.fnKey(fn.Parent()) + "$" + strings.TrimPrefix(fn.Name(), fn.Parent().Name()+"$")
@@ -183,6 +197,60 @@ func (eng *Engine) fnKey(fn *ssa.Function) string {
 		return fn.String()
 	}
 	return fn.Pkg.Pkg.Name() + "." + fn.RelString(fn.Pkg.Pkg)
+}
+
+// funcRenames: a contract whose function no longer exists is rebound to the one function of the same package
+// (and the same receiver) that has no contract and declares variables of exactly the recorded types in the
+// recorded order - i.e. the function was renamed. Recorded in the evidence as a rebinding.
+func (eng *Engine) funcRenames() {
+	eng.keyAlias = map[string]string{}
+	eng.bareAlias = map[string]string{}
+	var all []*ssa.Function
+	have := map[string]bool{}
+	for fn := range ssautil.AllFunctions(eng.prog) {
+		if fn.Pkg == nil || fn.Synthetic != "" || fn.Parent() != nil || !eng.ours(fn) {
+			continue
+		}
+		all = append(all, fn)
+		have[eng.rawKey(fn)] = true
+	}
+	sort.Slice(all, func(i, j int) bool { return eng.rawKey(all[i]) < eng.rawKey(all[j]) })
+	prefix := func(k string) string { return k[:strings.LastIndex(k, ".")+1] }
+	for _, old := range eng.contracts.Order {
+		if have[old] || strings.Contains(old, "$") || strings.HasSuffix(old, ".package") || strings.HasSuffix(old, ".init") {
+			continue
+		}
+		rec := eng.recordedLocals[old]
+		if len(rec) == 0 {
+			continue
+		}
+		var cands []*ssa.Function
+		for _, fn := range all {
+			k := eng.rawKey(fn)
+			if eng.contracts.Funcs[k] != nil || prefix(k) != prefix(old) {
+				continue
+			}
+			cur := eng.declaredVars(fn)
+			if len(cur) != len(rec) {
+				continue
+			}
+			same := true
+			for i := range cur {
+				if cur[i].Type != rec[i].Type {
+					same = false
+				}
+			}
+			if same {
+				cands = append(cands, fn)
+			}
+		}
+		if len(cands) == 1 {
+			nk := eng.rawKey(cands[0])
+			eng.keyAlias[nk] = old
+			eng.bareAlias[cands[0].Name()] = old[strings.LastIndex(old, ".")+1:]
+			eng.assumptions["contract of "+old+" rebound to "+nk+": the function was renamed (same receiver, same declared variables in the same order, the old name is gone)"] = true
+		}
+	}
 }
 
 func (eng *Engine) contractOf(fn *ssa.Function) *FuncContract {
